@@ -6,7 +6,7 @@ use dnp3::outstation::database::*;
 
 use crate::explore::{Hasher, RunResult};
 use crate::osim::{Cb, OSim, Tx};
-use crate::wire::app;
+use crate::wire::app::{self, fc};
 
 pub struct Step {
     pub now: u64,
@@ -113,4 +113,86 @@ pub fn null_unsol_handshake(sim: &mut OSim) -> Option<u8> {
     let seq = r.seq();
     sim.send(&app::confirm(seq, true));
     Some(seq)
+}
+
+// ---------------------------------------------------------------------------------------
+// master side: an ideal outstation's reply to any request the master writes
+// ---------------------------------------------------------------------------------------
+
+pub fn free_format(var: u8, data: &[u8]) -> Vec<u8> {
+    let mut v = vec![70, var, 0x5B, 1, data.len() as u8, (data.len() >> 8) as u8];
+    v.extend_from_slice(data);
+    v
+}
+
+/// ideal reply (a single FIR|FIN response fragment) to a request fragment; `iin1` is OR-ed in
+pub fn ideal_reply(req: &[u8], iin1: u8) -> Vec<u8> {
+    let seq = req[0] & 0x0F;
+    let func = req[1];
+    let objs = &req[2..];
+    let ctrl = app::ctrl(true, true, false, false, seq);
+    let file_obj = objs.len() >= 3 && objs[0] == 70 && objs[2] == 0x5B;
+    let body: Vec<u8> = match func {
+        fc::READ => {
+            if file_obj && objs[1] == 5 {
+                // file read: answer with the last (empty) block of the requested handle
+                let h = &objs[6..10];
+                let mut d = h.to_vec();
+                let blk = u32::from_le_bytes([objs[10], objs[11], objs[12], objs[13]]) | 0x8000_0000;
+                d.extend_from_slice(&blk.to_le_bytes());
+                free_format(5, &d)
+            } else {
+                let mut v = app::hdr_range8(30, 1, 0, 0);
+                v.push(0x01);
+                v.extend_from_slice(&7i32.to_le_bytes());
+                v
+            }
+        }
+        fc::WRITE => {
+            if file_obj && objs[1] == 5 {
+                let mut d = objs[6..14].to_vec();
+                d.push(0); // status success
+                free_format(6, &d)
+            } else {
+                vec![]
+            }
+        }
+        fc::SELECT | fc::OPERATE | fc::DIRECT_OPERATE => objs.to_vec(),
+        fc::COLD_RESTART | fc::WARM_RESTART => vec![52, 2, 0x07, 1, 5, 0],
+        fc::DELAY_MEASURE => vec![52, 2, 0x07, 1, 0, 0],
+        fc::OPEN_FILE | fc::CLOSE_FILE => {
+            // g70v4: handle, size, max block, request id, status
+            let mut d = Vec::new();
+            d.extend_from_slice(&7u32.to_le_bytes());
+            d.extend_from_slice(&0u32.to_le_bytes());
+            d.extend_from_slice(&100u16.to_le_bytes());
+            d.extend_from_slice(&0u16.to_le_bytes());
+            d.push(0);
+            free_format(4, &d)
+        }
+        fc::GET_FILE_INFO => {
+            let name = b"x";
+            let mut d = Vec::new();
+            d.extend_from_slice(&20u16.to_le_bytes());
+            d.extend_from_slice(&(name.len() as u16).to_le_bytes());
+            d.extend_from_slice(&1u16.to_le_bytes()); // simple file
+            d.extend_from_slice(&4u32.to_le_bytes());
+            d.extend_from_slice(&app::time48(1000));
+            d.extend_from_slice(&0x01FFu16.to_le_bytes());
+            d.extend_from_slice(&0u16.to_le_bytes());
+            d.extend_from_slice(name);
+            free_format(7, &d)
+        }
+        fc::AUTHENTICATE_FILE => {
+            let mut d = Vec::new();
+            d.extend_from_slice(&12u16.to_le_bytes());
+            d.extend_from_slice(&0u16.to_le_bytes());
+            d.extend_from_slice(&12u16.to_le_bytes());
+            d.extend_from_slice(&0u16.to_le_bytes());
+            d.extend_from_slice(&0xCAFEu32.to_le_bytes());
+            free_format(2, &d)
+        }
+        _ => vec![],
+    };
+    app::response(ctrl, fc::RESPONSE, iin1, 0, &body)
 }
